@@ -40,6 +40,8 @@ def scenarios(ctx):
                 steps.append({"op": "count"})
             elif x < 0.62:
                 steps.append({"op": "reset"})
+            elif x < 0.66:
+                steps.append({"op": "clone"})       # (plain counters) a snapshot that is then used side by side with the original
             else:
                 steps.append({"op": "adv", "d": rng.choice([1, 1, 2, r - 1 if r > 1 else 1, r, r + 1, n * r - 1, n * r, n * r + 1, 3 * n * r])})
         out.append({"id": "rnd-%d" % i, "cfg": {"n": n, "r": r, "tick_ms": 500, "kind": rng.choice(["ratio", "counter"])}, "steps": steps})
